@@ -787,6 +787,10 @@ func installStubs(e *sym.Exec, spec *Spec, off []string) {
 						// file content: a one-byte slice whose byte is a symbol named after the (concrete) path, nil error
 						return ex.BytesByArg(st, sp.Input, args[0]), true
 					}
+					if sp.Returns == "floats" {
+						// every result is a fresh symbolic float named <input>_<k>
+						return ex.FreshFloatResults(sp.Input, fn), true
+					}
 					if sp.Returns == "bool-nil" {
 						// (nondeterministic bool, nil error), a fresh bool per call
 						return ex.BoolNilPerCall(sp.Input), true
